@@ -419,10 +419,18 @@ func numberedStart(sc scenario) bool {
 }
 
 func idsLabel(sc scenario) string {
+	l := "ids=unassigned"
 	if numberedStart(sc) {
-		return "ids=assigned"
+		l = "ids=assigned"
 	}
-	return "ids=unassigned"
+	// modules built "the other legal way" carry how they were built
+	switch sc.Source {
+	case "built:late-fields":
+		l += "|built=late-fields"
+	case "built:literals":
+		l += "|built=literal"
+	}
+	return l
 }
 
 var reBadEv = regexp.MustCompile(`<<"BADEV", "([^"]+)", (\d+), (\d+), (\d+)>>`)
